@@ -41,6 +41,33 @@
 #include "stir/TextWriter.h"
 #include "stir/Succeeded.h"
 #include "stir/error.h"
+#include "stir/modelling/ParametricDiscretisedDensity.h"
+#include "stir/modelling/KineticParameters.h"
+#include "stir/RegisteredObject.h"
+#include "stir/ParsingObject.h"
+#include "stir/Shape/Shape3D.h"
+#include "stir/recon_buildblock/BackProjectorByBin.h"
+#include "stir/recon_buildblock/ProjMatrixByBin.h"
+#include "stir/SeparableGaussianImageFilter.h"
+#include "stir/SeparableCartesianMetzImageFilter.h"
+#include "stir/SeparableConvolutionImageFilter.h"
+#include "stir/MedianImageFilter3D.h"
+#include "stir/MinimalImageFilter3D.h"
+#include "stir/MaximalImageFilter3D.h"
+#include "stir/ThresholdMinToSmallPositiveValueDataProcessor.h"
+#include "stir/TruncateToCylindricalFOVImageProcessor.h"
+#include "stir/ChainedDataProcessor.h"
+#include "stir/recon_buildblock/QuadraticPrior.h"
+#include "stir/recon_buildblock/RelativeDifferencePrior.h"
+#include "stir/recon_buildblock/LogcoshPrior.h"
+#include "stir/recon_buildblock/FilterRootPrior.h"
+#include "stir/recon_buildblock/ProjectorByBinPairUsingProjMatrixByBin.h"
+#include "stir/recon_buildblock/ProjectorByBinPairUsingSeparateProjectors.h"
+#include "stir/recon_buildblock/ForwardProjectorByBinUsingRayTracing.h"
+#include "stir/recon_buildblock/ForwardProjectorByBinUsingProjMatrixByBin.h"
+#include "stir/recon_buildblock/ChainedBinNormalisation.h"
+#include "stir/recon_buildblock/BinNormalisationFromProjData.h"
+#include "c17_hdrcheck.h"
 #include <algorithm>
 #include <cstring>
 #include <dirent.h>
@@ -367,9 +394,26 @@ enum Target
   T_PDFS,
   T_MULTI,
   T_DYNIMAGE,
+  T_PARAMIMAGE,
+  T_COPY,
   T_COUNT
 };
-static const char* target_name[] = { "keyparser", "image", "pdfs", "multi", "dynimage" };
+static const char* target_name[] = { "keyparser", "image", "pdfs", "multi", "dynimage", "paramimage", "copy" };
+
+// a checksum of the voxel values that were read (so that "the same data" can be compared between two headers)
+template <class ArrayT>
+static std::string
+checksum(const ArrayT& a)
+{
+  double s = 0;
+  long i = 0;
+  for (auto it = a.begin_all_const(); it != a.end_all_const(); ++it, ++i)
+    s += static_cast<double>(*it) * (1 + i % 7);
+  return vh::hex(s);
+}
+
+static std::string
+run_copy_history(const std::string& script);
 
 struct ProbeParser : public KeyParser
 {
@@ -563,7 +607,7 @@ image_facts_check(const std::string& text, const VoxelsOnCartesianGrid<float>& i
 
 // verdict text; throws nothing
 static std::string
-run_target(Target t, const std::string& text, const std::string& workdir, bool facts = false)
+run_target(Target t, const std::string& text, const std::string& workdir, bool facts)
 {
   try
     {
@@ -602,8 +646,43 @@ run_target(Target t, const std::string& text, const std::string& workdir, bool f
                 if (!why.empty())
                   return "inconsistent " + why;
               }
-            return "accepted " + std::to_string(nx) + "x" + std::to_string(ny) + "x" + std::to_string(nz);
+            return "accepted " + std::to_string(nx) + "x" + std::to_string(ny) + "x" + std::to_string(nz) + " data=" + checksum(*image);
           }
+          case T_PARAMIMAGE: {
+            std::unique_ptr<ParametricVoxelsOnCartesianGrid> par(read_interfile_parametric_image(in, workdir));
+            if (!par)
+              return "rejected null";
+            c17::ImgHdrProbe hdr;
+            std::istringstream in2(text);
+            if (!hdr.parse(in2))
+              return "inconsistent parametric image returned but the header alone does not parse";
+            const std::string tables = c17::image_tables_check(hdr);
+            if (!tables.empty())
+              return "inconsistent {order:table-length} parametric image returned, but the tables of the header object do not have the announced length: " + tables;
+            if (hdr.num_image_data_types != static_cast<int>(ParametricVoxelsOnCartesianGrid::get_num_params()))
+              return "inconsistent {paramimage:number-of-data-types} header says 'number of image data types := " + std::to_string(hdr.num_image_data_types)
+                     + "', the parametric image that was returned has " + std::to_string(ParametricVoxelsOnCartesianGrid::get_num_params()) + " parameters";
+            std::string sums;
+            long nx = 0, ny = 0, nz = 0;
+            for (int kp = 1; kp <= hdr.num_image_data_types; ++kp)
+              {
+                const VoxelsOnCartesianGrid<float> v = par->construct_single_density(kp);
+                nx = v.get_x_size(), ny = v.get_y_size(), nz = v.get_z_size();
+                if (nx != hdr.matrix_size[0][0] || ny != hdr.matrix_size[1][0] || nz != hdr.matrix_size[2][0])
+                  return "inconsistent sizes of parameter " + std::to_string(kp) + " differ from 'matrix size' of the header";
+                sums += (kp > 1 ? "," : "") + checksum(v);
+              }
+            const long bytes = nx * ny * nz * static_cast<long>(hdr.type_of_numbers.size_in_bytes());
+            const long have = std::max(file_size(workdir + "/" + hdr.data_file_name), file_size(hdr.data_file_name));
+            for (int kp = 0; kp < hdr.num_image_data_types; ++kp)
+              if (static_cast<long>(hdr.data_offset_each_dataset[kp]) + bytes > have)
+                return "inconsistent parametric image accepted but data set " + std::to_string(kp + 1) + " lies at bytes " + std::to_string(hdr.data_offset_each_dataset[kp])
+                       + ".. of a data file of " + std::to_string(have) + " bytes";
+            return "accepted " + std::to_string(hdr.num_image_data_types) + " parameters of " + std::to_string(nx) + "x" + std::to_string(ny) + "x" + std::to_string(nz)
+                   + " data=" + sums;
+          }
+          case T_COPY:
+            return run_copy_history(text);
           case T_PDFS: {
             std::unique_ptr<ProjDataFromStream> pd(read_interfile_PDFS(in, workdir, std::ios::in));
             if (!pd)
@@ -687,10 +766,13 @@ run_target(Target t, const std::string& text, const std::string& workdir, bool f
             if (nframes < 1) // a header without any time-frame information (e.g. truncated before it): an empty dynamic image, nothing was read
               return "accepted-empty dynamic image with 0 time frames";
             long nx = 0, ny = 0, nz = 0;
+            std::string sums;
             for (long fr = 1; fr <= nframes; ++fr)
               {
                 const VoxelsOnCartesianGrid<float>& v = dynamic_cast<const VoxelsOnCartesianGrid<float>&>(dyn->get_density(static_cast<unsigned>(fr)));
                 nx = v.get_x_size(), ny = v.get_y_size(), nz = v.get_z_size();
+                if (fr <= 8)
+                  sums += (fr > 1 ? "," : "") + checksum(v);
                 if (nx != hdr.matrix_size[0][0] || ny != hdr.matrix_size[1][0] || nz != hdr.matrix_size[2][0])
                   return "inconsistent sizes of frame " + std::to_string(fr) + " differ from 'matrix size' of the header";
               }
@@ -729,7 +811,7 @@ run_target(Target t, const std::string& text, const std::string& workdir, bool f
                 if (!why.empty())
                   return "inconsistent " + why;
               }
-            return "accepted " + std::to_string(nframes) + " frames of " + std::to_string(nx) + "x" + std::to_string(ny) + "x" + std::to_string(nz);
+            return "accepted " + std::to_string(nframes) + " frames of " + std::to_string(nx) + "x" + std::to_string(ny) + "x" + std::to_string(nz) + " data=" + sums;
           }
         default:
           return "rejected";
@@ -861,6 +943,158 @@ make_corpus(const std::string& workdir, vh::Rng& rng)
       seeds.push_back({ T_PDFS, "siemens-sample", join_lines(l) });
     }
   return seeds;
+}
+
+
+struct Structured
+{
+  std::string text, expect;
+};
+
+// ------------------------------------------------------------------------------------------------ size-giving keys in another order
+// Extra seed headers for the key-order family only: an image whose header has energy windows and a time frame, and a
+// parametric image (two data sets), both written by the library.
+static std::vector<Seed>
+make_order_corpus(const std::string& workdir, vh::Rng& rng)
+{
+  std::vector<Seed> seeds;
+  try
+    {
+      shared_ptr<Scanner> scanner = vh::make_scanner(16, 3);
+      shared_ptr<ProjDataInfo> pdi = vh::make_pdi(scanner, 1, 2, 8, 7, false, 0);
+      shared_ptr<VoxelsOnCartesianGrid<float>> image = vh::make_image(*pdi, 1.F, rng.range(3, 6), rng.range(2, 4));
+      {
+        ExamInfo exam = image->get_exam_info();
+        exam.imaging_modality = ImagingModality::PT;
+        exam.set_low_energy_thres(350.F);
+        exam.set_high_energy_thres(650.F);
+        exam.time_frame_definitions = TimeFrameDefinitions(std::vector<std::pair<double, double>>(1, std::make_pair(0., 60.)));
+        image->set_exam_info(exam);
+      }
+      long i = 0;
+      for (auto it = image->begin_all(); it != image->end_all(); ++it)
+        *it = static_cast<float>(1 + (i++ % 11));
+      if (write_basic_interfile(workdir + "/img_ew", *image) == Succeeded::yes)
+        seeds.push_back({ T_IMAGE, "img_ew", slurp(workdir + "/img_ew.hv") });
+      ParametricVoxelsOnCartesianGrid par(*image);
+      for (unsigned kp = 1; kp <= ParametricVoxelsOnCartesianGrid::get_num_params(); ++kp)
+        {
+          VoxelsOnCartesianGrid<float> single = *image;
+          single *= static_cast<float>(kp + 1);
+          par.update_parametric_image(single, kp);
+        }
+      if (write_basic_interfile(workdir + "/par_0", par) == Succeeded::yes)
+        seeds.push_back({ T_PARAMIMAGE, "par_0", slurp(workdir + "/par_0.hv") });
+    }
+  catch (std::exception& e)
+    {
+      std::fprintf(stderr, "corpus (order family): %s\n", e.what());
+    }
+  return seeds;
+}
+
+// header-object stage: parse `text` with the header class of the target; accepted => table lengths and a dump of all size-giving members
+static void
+header_stage(Target t, const std::string& text, bool& accepted, std::string& dump, std::string& tables_why)
+{
+  accepted = false;
+  dump.clear();
+  tables_why.clear();
+  try
+    {
+      std::istringstream in(text);
+      if (t == T_PDFS)
+        {
+          c17::PdfsHdrProbe h;
+          if (!h.parse(in))
+            return;
+          accepted = true;
+          dump = c17::pdfs_sizes_dump(h);
+          tables_why = c17::pdfs_tables_check(h);
+        }
+      else
+        {
+          c17::ImgHdrProbe h;
+          if (!h.parse(in))
+            return;
+          accepted = true;
+          dump = c17::image_sizes_dump(h);
+          tables_why = c17::image_tables_check(h);
+        }
+    }
+  catch (std::bad_alloc&)
+    {
+      throw;
+    }
+  catch (std::exception&)
+    {}
+}
+
+static std::string
+run_target(Target t, const std::string& text, const std::string& workdir, bool facts);
+
+static bool
+is_accepted(const std::string& verdict)
+{
+  return verdict.compare(0, 9, "accepted ") == 0;
+}
+
+// A header whose size-giving lines come in another order than in `canon` (the header as written by the library) has to be
+// rejected, or: (1) the header object has every table at the announced length, (2) its size-giving members have the values of
+// the canonical order, (3) the reader (read_interfile_image / _dynamic_image / _parametric_image / _PDFS) returns the same data.
+static std::string
+run_order(Target t, const std::string& text, const std::string& canon, const std::string& workdir)
+{
+  bool accP = false, accC = false;
+  std::string dumpP, dumpC, whyP, whyC;
+  try
+    {
+      header_stage(t, text, accP, dumpP, whyP);
+      if (accP && !whyP.empty())
+        return "inconsistent {order:table-length} header with its size-giving keys in another order is accepted, but the tables of the header object do not have the announced length: " + whyP;
+      header_stage(t, canon, accC, dumpC, whyC);
+    }
+  catch (std::bad_alloc&)
+    {
+      return "inconsistent std::bad_alloc";
+    }
+  if (accP && accC && dumpP != dumpC)
+    return "inconsistent {order:values-differ} header with its size-giving keys in another order is accepted with other values: " + dumpP + " | canonical order: " + dumpC;
+  const std::string vP = run_target(t, text, workdir, true);
+  if (!is_accepted(vP))
+    return vP;
+  const std::string vC = run_target(t, canon, workdir, true);
+  if (is_accepted(vC) && vC != vP)
+    return "inconsistent {order:data-differ} header with its size-giving keys in another order: " + vP + " | canonical order: " + vC;
+  return vP;
+}
+
+static const char* ORDER_TAG = "order-canonical ";
+
+static std::string
+unhexs(const std::string& tok)
+{
+  std::string r;
+  for (std::size_t k = 1; k + 1 < tok.size(); k += 2)
+    r += static_cast<char>(std::stoi(tok.substr(k, 2), nullptr, 16));
+  return r;
+}
+
+static std::vector<Structured>
+order_inputs(const Seed& seed, vh::Rng& rng, int n)
+{
+  std::vector<Structured> out;
+  const std::vector<std::string> lines = split_lines(seed.text);
+  std::set<std::string> seen;
+  for (int k = 0; k < n; ++k)
+    {
+      std::string how;
+      const std::string text = join_lines(c17::reorder_header(lines, rng, how));
+      if (text == seed.text || !seen.insert(text).second)
+        continue;
+      out.push_back({ text, ORDER_TAG + hexs(seed.text) });
+    }
+  return out;
 }
 
 // ------------------------------------------------------------------------------------------------ mutations
@@ -1217,11 +1451,6 @@ inputs_for_seed(const Seed& seed, vh::Rng& rng, int nrandom, int nbytes)
 // others (a per-segment list with one entry too few / too many, a count that does not match the lists, an index beyond the
 // declared count ...).  Every such header has to be rejected (expect = "must-reject <what>"); headers changed consistently, and
 // the library's own header, have to be accepted (expect = "must-accept <what>").
-struct Structured
-{
-  std::string text, expect;
-};
-
 static int
 find_key_line(const std::vector<std::string>& lines, const std::string& key, int index)
 {
